@@ -6,11 +6,21 @@
 import NB.Drv.C01
 import NB.Drv.C15
 import NB.Drv.C05
+import NB.Drv.C09
+import NB.Drv.C17
+import NB.Drv.C10
+import NB.Drv.C18
+import NB.Drv.C06
 
 def handlers : List (String × (String → List String → Option (String × String))) :=
   [ ("C01", NB.Drv.C01.handle),
     ("C15", NB.Drv.C15.handle),
-    ("C05", NB.Drv.C05.handle) ]
+    ("C05", NB.Drv.C05.handle),
+    ("C09", NB.Drv.C09.handle),
+    ("C17", NB.Drv.C17.handle),
+    ("C10", NB.Drv.C10.handle),
+    ("C18", NB.Drv.C18.handle),
+    ("C06", NB.Drv.C06.handle) ]
 
 def answer (line : String) : String :=
   match (line.trimAscii.toString.splitOn " ").filter (· ≠ "") with
